@@ -36,6 +36,7 @@ func init() {
 		"Param":      ndParam,
 		"CaptureFormats": func(fr *frame, a []value) (value, bool) { fr.i.ps.captureFmt = a[0].(bool); return nil, true },
 		"FloatsOf":   ndFloatsOf,
+		"From":       ndFrom,
 	} {
 		intrinsics[ndPkg+k] = v
 	}
@@ -237,4 +238,38 @@ func ndFloatsOf(fr *frame, a []value) (value, bool) {
 		}
 	}
 	return out, true
+}
+
+// From(name, n, alphabet): a string of n bytes each drawn from alphabet. Every
+// byte is an 8-bit variable constrained by one single-variable disjunction, so
+// that character-class branches are decided by byte-domain propagation.
+func ndFrom(fr *frame, a []value) (value, bool) {
+	ps := fr.i.ps
+	tt := ps.tt
+	name := cstr(a[0])
+	n := int(fr.i.concreteInt(a[1]))
+	alpha := cstr(a[2])
+	if len(alpha) == 0 {
+		panic(engineError{"From: empty alphabet"})
+	}
+	out := make(symstr, n)
+	for j := 0; j < n; j++ {
+		t := ps.newDraw(fmt.Sprintf("%s%d", name, j), "uint8", bvSort(8))
+		var c *Term
+		for k := 0; k < len(alpha); k++ {
+			e := tt.eq(t, tt.bvConst(uint64(alpha[k]), 8))
+			if c == nil {
+				c = e
+			} else {
+				c = tt.or(c, e)
+			}
+		}
+		if ps.model != nil && !ps.inReplay() {
+			ps.model[t.name] = uint64(alpha[0])
+			ps.ev = nil
+		}
+		ps.assertCond(c)
+		out[j] = mkSym(t, types.Uint8)
+	}
+	return normStr(out), true
 }
